@@ -56,8 +56,8 @@ func (l c20ListenConfig) Listen(_ context.Context, _ string, address string) (ne
 	}
 	return l.n.sim.NewListener(&net.TCPAddr{IP: ip, Port: port})
 }
-func (l c20ListenConfig) ListenPacket(context.Context, string, string) (net.PacketConn, error) {
-	return nil, fmt.Errorf("unused")
+func (l c20ListenConfig) ListenPacket(_ context.Context, network, address string) (net.PacketConn, error) {
+	return l.n.ListenPacket(network, address)
 }
 func (n *c20Net) CreateListenConfig(*net.ListenConfig) transport.ListenConfig { return c20ListenConfig{n} }
 
@@ -269,6 +269,42 @@ func TestVerif_C20(t *testing.T) { //nolint:cyclop
 				_ = l1.Close()
 			}
 		}
+	}
+	// real UDP sockets on loopback: with a one-port range, a second allocation must fail (never share)
+	for _, requested := range []bool{false, true} {
+		probe, err := net.ListenPacket("udp4", "127.0.0.1:0")
+		if err != nil {
+			break
+		}
+		port := probe.LocalAddr().(*net.UDPAddr).Port
+		_ = probe.Close()
+		gen := &RelayAddressGeneratorPortRange{RelayAddress: net.IPv4(127, 0, 0, 1), MinPort: uint16(port), MaxPort: uint16(port), MaxRetries: 3, Address: "127.0.0.1",
+			Rand: &c20Rand{rng: rng}}
+		if gen.Validate() != nil {
+			break
+		}
+		c1, a1, err1 := gen.AllocatePacketConn(AllocateListenerConfig{Network: "udp4"})
+		if err1 != nil {
+			continue
+		}
+		_, p1 := addrIPPort(a1)
+		rq := 0
+		if requested {
+			rq = p1
+		}
+		c2, a2, err2 := gen.AllocatePacketConn(AllocateListenerConfig{Network: "udp4", RequestedPort: rq})
+		obs2 := "GErr"
+		if err2 == nil {
+			ai, ap := addrIPPort(a2)
+			obs2 = fmt.Sprintf("(GOk %s %d %d)", coqIP(ai), ap, c2.LocalAddr().(*net.UDPAddr).Port)
+			_ = c2.Close()
+		}
+		lo := coqIP(net.IPv4(127, 0, 0, 1))
+		term := fmt.Sprintf("GC (GRange %d %d 3) %s %s [\n  GS (GAlloc false false 0 [0] 0) [1] (GOk %s %d %d);\n  GS (GAlloc false false %d %s 0) %s %s\n]",
+			port, port, lo, lo, lo, p1, p1, rq, map[bool]string{true: "[]", false: "[0; 0; 0]"}[requested],
+			map[bool]string{true: "[]", false: "[1; 1; 1]"}[requested], obs2)
+		col.Add("real-udp-same-port", "udp-real-share", true, term)
+		_ = c1.Close()
 	}
 	if err := col.Flush(); err != nil {
 		t.Fatal(err)
